@@ -140,6 +140,23 @@ def ekf_driver_source(spec, ns="gen", name="filter", kind="ekf"):
               f"int f = -1; for (int a = 0; a < {n}; ++a) for (int b = 0; b < {n}; ++b) if (t.data(a, b) == 1.0) f = (a == b && f == -1) ? a : -2; "
               f"CI[{i}] = f; printf(\"idx cov {i} %d\\n\", f); }}")
         A(f"  {{ Covariance t; for (int a = 0; a < {n}; ++a) for (int b = 0; b < {n}; ++b) printf(\"dflt cov %d %d %a\\n\", a, b, t.data(a, b)); }}")
+    # read access through the CONST named accessors on objects filled with distinct values
+    A(f"  {{ State t; for (int a = 0; a < {n}; ++a) t.data(a, 0) = 100.0 + a; const State& c = t;")
+    for i, s in enumerate(st_):
+        A(f"    printf(\"cread state {i} %a\\n\", c.{s}());")
+    A("  }")
+    if ct:
+        A(f"  {{ Control t; for (int a = 0; a < {c}; ++a) t.data(a, 0) = 200.0 + a; const Control& c = t;")
+        for i, u in enumerate(ct):
+            A(f"    printf(\"cread control {i} %a\\n\", c.{u}());")
+        A("  }")
+    if kind == "ekf":
+        A(f"  {{ Covariance t; for (int a = 0; a < {n}; ++a) for (int b = 0; b < {n}; ++b) t.data(a, b) = 1000.0 + 10.0 * a + b; const Covariance& c = t;")
+        for i, s in enumerate(st_):
+            A(f"    printf(\"cread cov {i} %a\\n\", c.{s}());")
+        A("  }")
+        A("  printf(\"config innovation_filtering %a\\n\", (double)cpp::Config::innovation_filtering);")
+        A("  printf(\"config max_dt_sec %a\\n\", (double)cpp::Config::max_dt_sec);")
     # Options constructors, by name
     A("  { StateOptions o;")
     for i, s in enumerate(st_):
@@ -258,14 +275,16 @@ def sensor_line(spec, key, point, P, z):
 def parse(text):
     """-> (prelude dict, cases list). prelude: {'idx': {(kind, ...): int}, 'dflt': ..., 'opt': ...};
     each case: {'kind': 'P'|'S', 'sensor': si, tag: {index tuple: float}}"""
-    pre = {"idx": {}, "dflt": {}, "opt": {}}
+    pre = {"idx": {}, "dflt": {}, "opt": {}, "cread": {}, "config": {}}
     cases = []
     cur = None
     for line in text.splitlines():
         t = line.split()
         if not t:
             continue
-        if t[0] in ("idx", "dflt", "opt"):
+        if t[0] == "config":
+            pre["config"][t[1]] = float.fromhex(t[2])
+        elif t[0] in ("idx", "dflt", "opt", "cread"):
             key = tuple([t[1]] + [int(x) for x in t[2:-1]])
             pre[t[0]][key] = int(t[-1]) if t[0] == "idx" else float.fromhex(t[-1])
         elif t[0] == "case":
@@ -301,3 +320,94 @@ def build_and_run(spec, lines, *, kind="ekf", config=None, ns="gen", name="filte
     finally:
         if not keep:
             cleanup(wd)
+
+
+# ------------------------------------------------------------------------------------------
+# history driver: one generated filter, a sequence of predictions and updates, covariance printed after every step
+
+
+def history_driver_source(spec, ns="gen", name="filter"):
+    st_, ct, ck = sorted(spec["state"]), sorted(spec["control"]), sorted(spec["calib"])
+    n = len(st_)
+    sens = sorted(spec["sensors"])
+    L = []
+    A = L.append
+    A(f"#include <{ns}/{name}.h>\n#include <cstdio>\n#include <cstdlib>")
+    A(f"using namespace {ns};")
+    A("static double rd() { double v; if (scanf(\"%la\", &v) != 1) exit(3); return v; }")
+    A(f"static void show(const StateAndVariance& s) {{ printf(\"step\"); for (int a = 0; a < {n}; ++a) printf(\" %a\", s.state.data(a, 0)); "
+      f"for (int a = 0; a < {n}; ++a) for (int b = 0; b < {n}; ++b) printf(\" %a\", s.covariance.data(a, b)); printf(\"\\n\"); }}")
+    A("int main() {")
+    A(f"  int SI[{n}];")
+    for i, s in enumerate(st_):
+        A(f"  {{ State t; t.{s}() = 1.0; SI[{i}] = -1; for (int a = 0; a < {n}; ++a) if (t.data(a, 0) == 1.0) SI[{i}] = a; }}")
+    A(f"  printf(\"map\"); for (int a = 0; a < {n}; ++a) printf(\" %d\", SI[a]); printf(\"\\n\");")
+    A("  StateAndVariance sv;")
+    for s in st_:
+        A(f"  sv.state.{s}() = rd();")
+    A(f"  for (int a = 0; a < {n}; ++a) for (int b = 0; b < {n}; ++b) sv.covariance.data(SI[a], SI[b]) = rd();")
+    if ck:
+        A("  CalibrationOptions co;")
+        for k in ck:
+            A(f"  co.{k} = {hexf(spec['calib_values'][k])};")
+        A("  Calibration cal(co);")
+    A("  ExtendedKalmanFilter ekf; char cmd[16];")
+    A("  while (scanf(\"%15s\", cmd) == 1) {")
+    A("    if (cmd[0] == 'P') { double dt = rd();")
+    if ct:
+        A("      Control u;")
+        for c in ct:
+            A(f"      u.{c}() = rd();")
+    A(f"      sv = ekf.process_model({_args(spec)}); show(sv); }}")
+    for si, key in enumerate(sens):
+        T = key.title()
+        rds = sorted(spec["sensors"][key])
+        A(f"    else if (cmd[0] == 'S' && atoi(cmd + 1) == {si}) {{")
+        A(f"      {T} none; {T} pred = {T}SensorModel::model({_sargs(spec, reading='none')});")
+        A(f"      {T}Options ro;")
+        A(f"      {{ int RI[{len(rds)}];")
+        for ri, r in enumerate(rds):
+            A(f"        {{ {T}Options o; o.{r} = 1.0; {T} t(o); RI[{ri}] = -1; for (int a = 0; a < {len(rds)}; ++a) if (t.data(a, 0) == 1.0) RI[{ri}] = a; }}")
+        for ri, r in enumerate(rds):
+            A(f"        ro.{r} = pred.data(RI[{ri}], 0) + rd();")
+        A("      }")
+        A(f"      {T} z(ro); sv = ekf.sensor_model({_sargs(spec, reading='z')}); show(sv); }}")
+    A("    else return 4;")
+    A("  }")
+    A("  return 0;")
+    A("}")
+    return "\n".join(L) + "\n"
+
+
+def run_history(spec, x0, P0, ops):
+    """ops: [("P", dt, {control: v}) | ("S", key, [delta per sorted reading])] -> list of (x np, P np) by sorted state name"""
+    import numpy as np
+
+    st_, ct = sorted(spec["state"]), sorted(spec["control"])
+    n = len(st_)
+    toks = [hexf(x0[s]) for s in st_] + [hexf(P0[i][j]) for i in range(n) for j in range(n)]
+    sens = sorted(spec["sensors"])
+    for op in ops:
+        if op[0] == "P":
+            toks += ["P", hexf(op[1])] + [hexf(op[2][c]) for c in ct]
+        else:
+            toks += [f"S{sens.index(op[1])}"] + [hexf(v) for v in op[2]]
+    wd = workdir("hist")
+    try:
+        res, header, source = generate(spec, wd)
+        drv = os.path.join(wd, "driver.cpp")
+        with open(drv, "w") as fh:
+            fh.write(history_driver_source(spec))
+        prog = compile_cpp(wd, [drv, source])
+        out = run(prog, " ".join(toks) + "\n")
+    finally:
+        cleanup(wd)
+    lines = out.splitlines()
+    raw = [int(v) for v in lines[0].split()[1:]]
+    steps = []
+    for ln in lines[1:]:
+        v = [float.fromhex(t) if "n" not in t.lower() else float("nan") for t in ln.split()[1:]]
+        x = np.array(v[:n])
+        P = np.array(v[n:]).reshape((n, n))
+        steps.append((x[raw], P[np.ix_(raw, raw)]))
+    return steps
